@@ -47,6 +47,103 @@ CHECKS["C18"] = dict(
 )
 
 HOOK_COMMITS.append("4f281a047")
+HOOK_COMMITS.append("3fc5237af")
+
+_QBFT_NOTE = ("N=4 (f=1), one Byzantine operator with its real BLS key; exhaustive only per adversary class and round bound "
+              "named in the evidence (macro grain: quorum-at-once delivery of prepares/commits, normalised like "
+              "instance.Compact), never for all Byzantine behaviours; the fine grain (one ProcessMsg per step) is "
+              "sampled by TLC simulation; BLS unforgeability and the herumi library are trusted.")
+
+CHECKS["C01"] = dict(
+    category="model_checking",
+    text="QBFT.tla models the node's consensus for one height at the grain of the code: Start, uponProposal, uponPrepare, "
+         "UponCommit, uponRoundChange (leader proposes / f+1 pull / nothing), UponRoundTimeout, Controller.UponDecided, with "
+         "first-message-per-signer containers, the code's justification checks and its quirks (proposal stamped with "
+         "State.Round, prepared value taken from the quorum-completing round-change, every round-change validated against "
+         "the proposed value). The adversary may deliver any well-formed message signed by the Byzantine operator; honest "
+         "signatures cannot be forged. TLC checks Agreement and DecidedStable exhaustively per adversary class (silent "
+         "member, equivocating leader, lying round-changes, certificates, one arbitrary reception; all leader rotations in "
+         "thorough). Fine-grain TLC behaviours are replayed on real controllers (real BLS, signature verification on) with "
+         "the projected real state compared to the spec state after every step and the agreement monitor evaluated on the "
+         "real instances; attack traces of weakened specs (one removed guard each) are replayed as regression.",
+    design_ref="DESIGN.md section 5 C01",
+    note=_QBFT_NOTE,
+    technique="TLA+ spec + TLC exhaustive check per adversary class; TLC simulation behaviours and attack traces replayed on "
+              "real controllers with state comparison",
+)
+CHECKS["C02"] = dict(
+    category="model_checking",
+    text="Same QBFT.tla; CertValid (every decision an operator holds is backed by >= 2f+1 distinct committee members whose "
+         "honest part really committed to that round and value), LocalDecisionFromLeader and CommittedValuesChecked are "
+         "checked exhaustively for the certificate class (valid certificates and the eight forged kinds - sub-quorum, "
+         "duplicate / zero / foreign signers, bad aggregate, value not matching root, wrong identifier, not a commit - in "
+         "every situation of the receiving operator) and the Byzantine-leader class with invalid values. On the real code "
+         "every certificate returned by Controller.ProcessMsg is re-verified independently by the harness "
+         "(FastAggregateVerify over exactly the listed members' keys, distinctness, quorum, H(FullData)=Root; leader and "
+         "value check for local decisions); forged certificates are built with the Byzantine operator's real key and must "
+         "leave the real controller unchanged; one attack trace per forged kind / removed guard is replayed.",
+    design_ref="DESIGN.md section 5 C02",
+    note=_QBFT_NOTE,
+    technique="TLA+ spec + TLC exhaustive check (certificate classes); simulation behaviours and attack traces replayed on real "
+              "controllers; independent re-verification of every reported certificate",
+)
+CHECKS["C06"] = dict(
+    category="model_checking",
+    text="QBFTInstance.tla is the single-instance restriction of QBFT.tla: operator 1 against an arbitrary environment "
+         "(every other member adversarial, so every well-formed message of the grammar is receivable at any time) plus "
+         "field-mutated messages (wrong height, bad signature, non-member / zero / two signers, root mismatch, malformed "
+         "justification, unknown type) that must be refused. TLC exhausts the model for committee 4 (<= 2 rounds) and "
+         "generates behaviours in six families (all classes, round-change heavy with the instance leading round 2, "
+         "committee 7, mutants); thorough adds one test per node of a dumped state graph. The oracle is the reference "
+         "implementation: every behaviour is stepped through the node's instance, the node's instance with "
+         "instance.Compact after every message, and the ssv-spec v0.3.7 qbft.Instance with identical keys and "
+         "byte-identical inputs; accept/reject, encoded broadcasts, decided flag/value/certificate and State.GetRoot() "
+         "after identical compaction are compared after every step.",
+    design_ref="DESIGN.md section 5 C06",
+    note="The reference implementation (pinned ssv-spec module) is the trusted oracle; the TLA+ model generates inputs and "
+         "predicts accept/reject (mismatch = divergence). The signer ORDER of the aggregated commit is normalised (the node "
+         "sorts it, the reference does not). Committees 4 and 7, rounds <= 5.",
+    technique="TLA+ single-instance model as test generator (TLC exhaustive + simulation + state-graph cover); differential "
+              "execution against the reference ssv-spec instance",
+)
+CHECKS["C07"] = dict(
+    category="model_checking",
+    text="QBFTCont.tla is a two-phase specification: any bounded asynchronous prefix of QBFT.tla, then `Switch` to a "
+         "deterministic timely continuation among the correct operators built from the same step operators (non-round-change "
+         "deliveries first, all timers of a round fire together, round-changes unprepared first / highest prepared last, "
+         "decided certificate, else the lowest undecided operator times out). The existential of the property becomes the "
+         "state invariant CanDecide (all decided within f+3 further rounds, except in the known wedge), checked exhaustively "
+         "from every state of the silent-member class (quiescent switch states for Byzantine classes in thorough). The "
+         "fault-free synchronous case is the liveness property FirstRoundDecision under weak fairness for every leader "
+         "rotation; the timeout step is an action property. On the real code: spec continuations are replayed on real "
+         "controllers, and from every replayed prefix the driver searches its own bounded family of timely continuations "
+         "(5 delivery orders + random ones, f+3 rounds) and reports only if none decides; synchronous runs for heights "
+         "0..3; attack traces of the timeout step.",
+    design_ref="DESIGN.md section 5 C07",
+    note=_QBFT_NOTE + " A failing witness is evidence, not proof, that no continuation exists; the known wedge (conflicting "
+         "prepared values with a silent member, inherited from the reference protocol) is a recorded finding.",
+    technique="two-phase TLA+ spec with an in-spec witness continuation (state invariant) + liveness under fairness; "
+              "continuations and a driver-side continuation search replayed on real controllers",
+)
+CHECKS["C17"] = dict(
+    category="model_checking",
+    text="Timer.tla models RoundTimer at the grain of the code (atomic armed round, one waiter goroutine + timer per arming that "
+         "is never stopped, wake-up round comparison, ctx.Done select, RoundTimeout transcribed with the role table and quick/slow "
+         "threshold) and Controller.OnTimeout over instance summaries (old round, unknown/superseded height, decided, cutoff, "
+         "container capacity 2). TLC exhausts every arm/advance/expire/cancel interleaving with arbitrary wake-up lateness for 3 role "
+         "classes and rounds <= 4 (quick) / 6 parameter sets, rounds <= 5 (thorough), checking OncePerArming, OnlyLatest, NeverEarly, "
+         "Superseded, StaleNoChange. The prompt-schedule state graph is replayed in real time on real RoundTimers (ms-scaled via the "
+         "verif hook, fake BeaconNetwork) and on a real controller with real instances; one attack trace per removed guard is replayed; "
+         "seeded random real-time schedules are validated by TLC (TimerTrace, interval linearization); the timer->Validator.onTimeout->"
+         "queue->ProcessMessage->Controller.OnTimeout path is exercised on a real validator.",
+    design_ref="DESIGN.md section 5 C17",
+    note="Monitors assert only scheduling-independent facts from recorded monotonic timestamps (never early, at most once per round, "
+         "no callback for a round superseded before its deadline); callback-after-cancel is reported only after an isolated 3/3 "
+         "confirmation; one instance per timer (cross-instance stale waiters are outside the property); exhaustive for the stated "
+         "constants only.",
+    technique="TLA+ spec + TLC exhaustive check; state-graph cover and attack traces replayed in real time on the real timer / "
+              "controller / validator; TLC trace validation of recorded real-time executions",
+)
 
 NOT_YET = {}
 
